@@ -10,7 +10,7 @@
 (* set; histories of 0..3 rotations with retention 1 (claimed sets latest /        *)
 (* retained / expired / never installed); both entry points.                      *)
 EXTENDS Gateway, Json
-CONSTANTS QScale
+CONSTANTS QScale, Deep
 VARIABLE st
 
 MC_Sets ==
@@ -18,6 +18,7 @@ MC_Sets ==
    A2 |-> [keys |-> <<1, 2>>,    weights |-> <<1, Cap - 1>>, threshold |-> Cap, nonce |-> 2],
    A3 |-> [keys |-> <<1, 2, 3>>, weights |-> <<1, 2, 1>>,    threshold |-> 3,   nonce |-> 3],
    A4 |-> [keys |-> <<2, 3, 4>>, weights |-> <<2, 1, 2>>,    threshold |-> 2,   nonce |-> 4],
+   A5 |-> [keys |-> <<1, 2, 3, 4>>, weights |-> <<1, 2, 3, 4>>, threshold |-> 6, nonce |-> 5],
    \* single tamperings of A3, never installed
    Tdrop   |-> [keys |-> <<1, 2>>,       weights |-> <<1, 2>>,       threshold |-> 3, nonce |-> 3],
    Tadd    |-> [keys |-> <<1, 2, 3, 4>>, weights |-> <<1, 2, 1, 1>>, threshold |-> 3, nonce |-> 3],
@@ -32,8 +33,8 @@ MC_Keys == [k1 |-> [chain |-> "c", id |-> "1"], k2 |-> [chain |-> "c", id |-> "2
 MC_Msgs == [m1 |-> [key |-> "k1", src |-> "sA", dest |-> "app1", ph |-> "p1"],
             m2 |-> [key |-> "k2", src |-> "sA", dest |-> "app1", ph |-> "p2"]]
 
-Order == <<"A1", "A2", "A3", "A4">>
-Live == {"A1", "A2", "A3", "A4"}
+Order == IF Deep THEN <<"A1", "A2", "A3", "A4", "A5">> ELSE <<"A1", "A2", "A3", "A4">>
+Live == {Order[i] : i \in 1..Len(Order)}
 Full(s) == [set |-> s, sigs |-> [i \in 1..Len(Sets[s].keys) |-> "Valid"]]
 Tagged(s, t) == [set |-> s, sigs |-> [i \in 1..Len(Sets[s].keys) |-> t]]
 Vectors(s) == [1..Len(Sets[s].keys) -> SigTags]
@@ -48,7 +49,7 @@ Acts(s) ==
             p \in ProofSet(s)}
     \cup {[name |-> "ApproveMessages", msgs |-> b, proof |-> Full(s.hashByEpoch[s.epoch]), auth |-> {}] :
             b \in {<<"m1", "m2">>, <<>>}}
-    \cup (IF s.epoch < 4
+    \cup (IF s.epoch < Len(Order)
           THEN {[name |-> "RotateSigners", new |-> Order[s.epoch + 1], proof |-> Full(s.hashByEpoch[s.epoch]),
                  bypass |-> FALSE, auth |-> {}]}
           ELSE {})
